@@ -296,7 +296,7 @@ func Run(ctx *common.Ctx) {
 	if ctx.Thorough() {
 		nscope = 600
 	}
-	scopeJobs := append(sysScenarios(ctx.Rng), genScopes(ctx, nscope)...)
+	scopeJobs := append(append(sysScenarios(ctx.Rng), sysLockScenarios(ctx.Rng)...), genScopes(ctx, nscope)...)
 	for k := range scopeJobs {
 		scopeJobs[k].Job.ID = len(all)
 		all = append(all, scopeJobs[k].Job)
@@ -547,7 +547,7 @@ func Run(ctx *common.Ctx) {
 	header := "From C17 Require Import Model Spec Corr.\nOpen Scope nat_scope.\n"
 	footer := "Definition res := Eval vm_compute in check_all cases.\nPrint res.\nDefinition steps := Eval vm_compute in sched_steps cases.\nPrint steps.\nDefinition undecided_cases := Eval vm_compute in undecided cases.\nPrint undecided_cases.\n"
 	ctx.WriteShards("cases", header, "case", footer, terms, descs, 16)
-	sheader := "From C17 Require Import Model ScopeModel Corr.\nOpen Scope nat_scope.\n"
+	sheader := "From C17 Require Import Model ScopeModel ScopeLockModel Corr.\nOpen Scope nat_scope.\n"
 	sfooter := "Definition res := Eval vm_compute in scheck_all cases.\nPrint res.\nDefinition scope_probes_compared := Eval vm_compute in scope_probes cases.\nPrint scope_probes_compared.\nDefinition scopes_reported_synchronized := Eval vm_compute in scopes_seen_synchronized cases.\nPrint scopes_reported_synchronized.\n"
 	ctx.WriteShards("scopes", sheader, "scase", sfooter, sterms, sdescs, 4)
 	lheader := "From C17 Require Import Model TableModel Corr.\nOpen Scope nat_scope.\n"
